@@ -66,6 +66,7 @@ struct C03 : public Driver {
         if (dc.manyNames) { sc.on.insert("num-nocount"); sc.on.insert("num-any"); }
         if (dc.bigNum) { sc.on.insert("bigfmt"); sc.on.insert("valnum"); }
         if (g.chance(1, 3)) sc.on.insert("padsupp");
+        const bool gated = g.chance(1, 3); if (gated) { sc.on.insert("gate"); if (g.chance(1, 2)) sc.on.insert("num-gate"); }
         { static const std::vector<std::string> langs = { "de", "fr", "en" }; static const std::vector<std::string> cases = { "", "upper-first", "lower-first" }; sc.sortLang = g.pick(langs); sc.sortCase = g.pick(cases); }
         sc.useImport = g.chance(1, 3); sc.useInclude = g.chance(1, 4); sc.docFn = g.chance(1, 3); sc.stripSpace = g.chance(1, 4); sc.dupExtPrefix = g.chance(1, 6);
         static const std::vector<std::string> encs = { "UTF-8", "UTF-8", "UTF-16", "ISO-8859-1", "US-ASCII", "windows-1252" };
@@ -97,7 +98,9 @@ struct C03 : public Driver {
                 if (destructive && which == 9 && !s.resources.empty()) { auto it = s.resources.begin(); std::advance(it, gf.below(s.resources.size())); Json rf = Json::object(); rf["name"] = it->first; static const std::vector<std::string> rk = { "missing", "throwing", "corrupt" }; rf["kind"] = gf.pick(rk); rf["fault"] = srcFaultAt(gf, it->second, true); o["resFault"] = rf; }
             } else if (r < 13) { o["op"] = "compile"; o["xslFault"] = srcFaultAt(gf, s.xsl, destructive); }
             else if (r < 15) { o["op"] = "parse"; o["xerces"] = gf.chance(1, 2); o["docFault"] = srcFaultAt(gf, d.xml, destructive); }
-            else if (r < 17) { o["op"] = "param-expr"; std::string e = gf.pick(exprPool()); SrcFault f = SrcFault::fromJson(srcFaultAt(gf, e, destructive)); o["expr"] = applySrcFault(e, f); o["faulted"] = f.destructive(); }
+            else if (r < 17) { o["op"] = "param-expr"; std::string e = gf.pick(exprPool()); SrcFault f = SrcFault::fromJson(srcFaultAt(gf, e, destructive)); o["expr"] = applySrcFault(e, f); o["faulted"] = f.destructive();
+                // a parameter value that makes a lazily evaluated global variable abort the transformation part-way
+                if (gated && gf.chance(2, 3)) { o["expr"] = gf.chance(1, 2) ? "'abort'" : "'badkey'"; o["faulted"] = true; } }
             else if (r < 19) { o["op"] = gf.chance(1, 2) ? "xpath-eval" : "xpath-capi"; std::string e = gf.pick(exprPool()); SrcFault f = SrcFault::fromJson(srcFaultAt(gf, e, destructive)); o["expr"] = applySrcFault(e, f); o["faulted"] = f.destructive(); o["docFault"] = srcFaultAt(gf, d.xml, destructive && gf.chance(1, 3)); }
             else { o["op"] = "capi-transform"; o["docFault"] = srcFaultAt(gf, d.xml, destructive && gf.chance(1, 2)); o["xslFault"] = srcFaultAt(gf, s.xsl, destructive && gf.chance(1, 2)); o["toHandler"] = gf.chance(1, 2); }
             ops.push(o);
@@ -175,7 +178,12 @@ struct C03 : public Driver {
                 // a (possibly corrupted) top-level parameter expression, then a transformation that uses it
                 env.T->setStylesheetParam(xs("P1", mm), xs(o.str("expr"), mm));
                 XReq rq; rq.doc = plan.str("doc"); rq.xsl = plan.str("xsl"); SimSink sink; env.fs.faults.clear(); env.fs.missing.clear(); env.fs.throwing.clear();
-                XformOut out = runTransform(env, rq, sink);
+                // through a compiled stylesheet that this transformer keeps: state left behind by an aborted run is most likely to be
+                // keyed by objects of that very stylesheet
+                const XalanCompiledStylesheet* cs = nullptr;
+                if (env.sheets.empty()) { env.fs.put("ss.xsl", rq.xsl); SimIStream is(rq.xsl, SrcFault()); XSLTInputSource in(&is, mm); in.setSystemId(xs(std::string(SIM_BASE) + "ss.xsl", mm).c_str()); if (env.T->compileStylesheet(in, cs) == 0 && cs) env.sheets.push_back(cs); else cs = nullptr; } else cs = env.sheets[0];
+                if (cs) rq.ssForm = "compiled";
+                XformOut out = runTransform(env, rq, sink, nullptr, cs);
                 env.T->clearStylesheetParams();
                 r.status = out.status; r.threw = out.threw; r.exc = out.exc; r.out = out.bytes; r.err = out.err; r.errEmpty = out.errEmpty;
                 if (count && o.boolean("faulted")) res.count("fault:expr-corrupt");
